@@ -222,7 +222,7 @@ def c07(run):
     run.extra_cov = {"rule": "random trees of all 7 types x 4 coordinate types, empty members, nested collections, ordinates k/10^q, "
                              "XY precision -8..7, Z/M precision 0..7, every subset of {size, bbox, closed rings, ids}; plus every "
                              "encoding written by the specification's writer for the MC_TWKB family; non-trivial = non-empty"}
-    run.model_check("MC_TWKB", timeout=1800)
+    run.model_check("MC_TWKB", cfg=tier_n(run, "MC_TWKB.cfg", "MC_TWKB_thorough.cfg"), timeout=3600)
     family_enumerated(run, "twkb", "Gen_TWKB", "Trace_TWKB", gen_cfg=tier_n(run, "Gen_TWKB.cfg", "Gen_TWKB_full.cfg"))
     family_random(run, "twkb", "Trace_TWKB", tier_n(run, 8000, 300000))
 
